@@ -8,3 +8,4 @@ git -C /repo checkout -- .
 # regenerate the translated files from the restored tree
 python3 /verif/translator/extract.py /repo /verif/lean/Tv/Generated.lean >/dev/null
 python3 /verif/translator/closures.py /repo /verif/lean/Tv/GenClosures.lean >/dev/null
+python3 /verif/translator/aggs.py /repo /verif/lean/Tv/GenAgg.lean >/dev/null
